@@ -17,6 +17,7 @@ pub mod tzdb;
 pub mod c19;
 pub mod c11;
 pub mod c12;
+pub mod c16;
 pub mod c20;
 
 pub fn generate(suite: &str, tier: &str, seed: u64) -> Vec<String> {
@@ -40,6 +41,7 @@ pub fn generate(suite: &str, tier: &str, seed: u64) -> Vec<String> {
         "c19" => c19::generate(&mut rng, thorough),
         "c11" => c11::generate(&mut rng, thorough),
         "c12" => c12::generate(&mut rng, thorough),
+        "c16" => c16::generate(&mut rng, thorough),
         "c20" => c20::generate(&mut rng, thorough),
         "c14" => zone::generate_c14(&mut rng, thorough),
         _ => panic!("unknown suite {suite}"),
@@ -48,7 +50,7 @@ pub fn generate(suite: &str, tier: &str, seed: u64) -> Vec<String> {
 
 /// Suites whose lines are evaluated under the per-line watchdog (see guard.rs).
 pub fn guarded(suite: &str) -> bool {
-    matches!(suite, "c03" | "c15" | "c20")
+    matches!(suite, "c03" | "c15" | "c20" | "c16")
 }
 
 pub fn eval_more(t: &[&str]) -> String {
@@ -84,6 +86,11 @@ pub fn eval_more(t: &[&str]) -> String {
     }
     if let Some(s) = c20::eval(t) {
         return s;
+    }
+    if t[0].starts_with("cal_") {
+        if let Some(s) = c16::eval(t) {
+            return s;
+        }
     }
     if t[0].starts_with("p_") {
         if let Some(s) = c12::eval(t) {
